@@ -27,6 +27,7 @@ def run(ctx, rep):
     prog = ctx.program("default")
     rep.configs.append(getattr(ctx, "alias", "default"))
     triangle_edges(prog, rep)
+    winding_symmetry(prog, rep)
     polyline_points(prog, rep)
 
 
@@ -155,3 +156,182 @@ def polyline_points(prog, rep):
                          % (show(sm.ret, maxd=4), " — pulled from the inner segment iterator: iteration ends at a repeated vertex" if innerpull else ""))
     rep.check(not probs and n_load >= 1 and n_pass >= 1 and n_end >= 1, "R19.2", "polyline::Points::next", "; ".join(sorted(set(probs))[:2]) or "expected passing, loading and ending paths (%d/%d/%d)" % (n_pass, n_load, n_end), at=nx.span, fn=nx.path)
     rep.check(adv_ok and n_load >= 1, "R19.2", "polyline::Points::advance", "each loaded segment must drop exactly the first remaining vertex (self.vertices = rest of split_first)", at=nx.span, fn=nx.path)
+
+
+# ---- R19.3 winding symmetry of Triangle::contains (sign abstraction + symmetry) ---------------------------------------
+def winding_symmetry(prog, rep):
+    """The barycentric inside test works on s, t (the point's two edge functions) and a = area_doubled().  Reversing the
+    vertex order negates all three, so the decision must be invariant under (s, t, a) -> (-s, -t, -a): for every sign
+    of s and t, a counter-clockwise triangle must accept, hand over to the edge walk and reject exactly under the
+    mirrored conditions of a clockwise one.  Decided on the path summaries by evaluating every path's facts in the sign
+    domain {-, 0, +} for s and t and {-, +} for a (exact for these atoms); the only non-sign atom, the comparison of
+    s + t with a, is kept symbolic as the sign condition on d = s + t - a and mirrored (d -> -d)."""
+    import itertools
+    co = prog.method1(TRI, "contains", "embedded_graphics::primitives::ContainsPoint")
+    try:
+        summs = Paths(prog, loops="once").of(co)
+    except Unsupported as e:
+        rep.fail("R19.3", "contains:winding", "cannot summarise Triangle::contains: %s" % e, status="undecided", at=co.span, fn=co.path)
+        return
+    A = ("call", "embedded_graphics::primitives::triangle::Triangle::area_doubled", (), (P(1, "self"),))
+
+    def strip_neg(t):
+        k = 1
+        while t[0] == "un" and t[1] == "Neg":
+            t = t[2]
+            k = -k
+        return t, k
+    # the two edge functions: operands of the `X < 0` tests that are not the area
+    syms = []
+    for sm in summs:
+        for fct in sm.facts:
+            for x in fct[1:]:
+                if not isinstance(x, tuple):
+                    continue
+                for n in walk(x):
+                    if n[0] == "bin" and n[1] in ("Lt", "Le") and (n[2] == ("const", 0) or n[3] == ("const", 0)):
+                        o = n[3] if n[2] == ("const", 0) else n[2]
+                        o, _ = strip_neg(o)
+                        if o != A and o not in syms and o[0] != "const":
+                            syms.append(o)
+            if fct[0] in ("lt", "le") and (fct[1] == ("const", 0) or fct[2] == ("const", 0)):
+                o = fct[2] if fct[1] == ("const", 0) else fct[1]
+                o, _ = strip_neg(o)
+                if o != A and o not in syms and o[0] == "bin" and o[1] in ("Add", "Sub"):
+                    # candidates: not a sum of two already known symbols
+                    syms.append(o)
+    # a sum of two other candidates is not a symbol of its own
+    def is_sum_of(o, cands):
+        if o[0] == "bin" and o[1] == "Add":
+            a_, ka = strip_neg(o[2])
+            b_, kb = strip_neg(o[3])
+            return a_ in cands and b_ in cands and a_ != b_
+        return False
+    base = [o for o in syms if not is_sum_of(o, [c for c in syms if c != o])]
+    if len(base) != 2:
+        rep.fail("R19.3", "contains:winding", "cannot identify the two edge functions of the inside test (found %d candidates)" % len(base), status="undecided", at=co.span, fn=co.path)
+        return
+    S, T = base
+
+    class Unknown(Exception):
+        pass
+
+    def sign_of(t, env):
+        """sign in {-1, 0, 1} of a tree over S, T, A and constants; ('d', k) for k*(S+T-A)-like sums is handled by rel()"""
+        t, k = strip_neg(t)
+        if t == S:
+            return k * env["s"]
+        if t == T:
+            return k * env["t"]
+        if t == A:
+            return k * env["a"]
+        if t[0] == "const" and isinstance(t[1], int):
+            return k * ((t[1] > 0) - (t[1] < 0))
+        raise Unknown(show(t, maxd=3))
+
+    def lin(t):
+        """{symbol: coefficient} of a sum over S, T, A"""
+        t, k = strip_neg(t)
+        if t in (S, T, A):
+            return {("s" if t == S else "t" if t == T else "a"): k}
+        if t[0] == "const" and t[1] == 0:
+            return {}
+        if t[0] == "bin" and t[1] in ("Add", "Sub"):
+            x, y = lin(t[2]), lin(t[3])
+            out = dict(x)
+            for kk, v in y.items():
+                out[kk] = out.get(kk, 0) + (v if t[1] == "Add" else -v)
+            return {kk: k * v for kk, v in out.items() if v}
+        raise Unknown(show(t, maxd=3))
+
+    def atom(rel, x, y, env):
+        """truth of (x rel y), or a symbolic condition on d = s + t - a: ('d', op) with op in < <= > >="""
+        try:
+            sx, sy = sign_of(x, env), sign_of(y, env)
+            if y == ("const", 0) or x == ("const", 0) or (sx != sy):
+                # comparable by sign alone when one side is 0 or the signs differ
+                if sy == 0 and y == ("const", 0):
+                    return {"lt": sx < 0, "le": sx <= 0, "eq": sx == 0, "ne": sx != 0}[rel]
+                if sx == 0 and x == ("const", 0):
+                    return {"lt": 0 < sy, "le": 0 <= sy, "eq": sy == 0, "ne": sy != 0}[rel]
+                if sx != sy and rel in ("lt", "le"):
+                    return sx < sy
+        except Unknown:
+            pass
+        c = lin(("bin", "Sub", x, y))
+        if c in ({"s": 1, "t": 1, "a": -1},):
+            return ("d", {"lt": "<", "le": "<=", "eq": "==", "ne": "!="}[rel])
+        if c in ({"s": -1, "t": -1, "a": 1},):
+            return ("d", {"lt": ">", "le": ">=", "eq": "==", "ne": "!="}[rel])
+        raise Unknown("%s %s %s" % (show(x, maxd=3), rel, show(y, maxd=3)))
+
+    def bool_tree(t, env):
+        if t[0] == "bin" and t[1] in ("Lt", "Le", "Eq"):
+            if t[1] == "Eq" and t[2][0] == "bin" and t[3][0] == "bin":
+                return bool_tree(t[2], env) == bool_tree(t[3], env)
+            r = atom({"Lt": "lt", "Le": "le", "Eq": "eq"}[t[1]], t[2], t[3], env)
+            if isinstance(r, tuple):
+                raise Unknown("nested symbolic atom")
+            return r
+        if t[0] == "un" and t[1] == "Not":
+            return not bool_tree(t[2], env)
+        raise Unknown(show(t, maxd=3))
+
+    def outcome(env):
+        """{kind: set of frozenset(d-conditions)} for kind in inside / edge-walk / outside"""
+        out = {"inside": set(), "edge-walk": set(), "outside": set()}
+        for sm in summs:
+            conds = []
+            ok = True
+            walkd = False
+            for fct in sm.facts:
+                if fct[0] in ("true", "false") and fct[1][0] == "call" and fct[1][1].endswith("Rectangle::contains"):
+                    if fct[0] == "false":
+                        ok = False
+                    continue
+                if fct[0] == "variant" and fct[1][0] == "call" and fct[1][1].split("::")[-1] == "next":
+                    walkd = True
+                    continue
+                if any(n[0] == "call" and n[1].split("::")[-1] in ("next", "continues") for x in fct[1:] if isinstance(x, tuple) for n in walk(x)):
+                    walkd = True
+                    continue
+                if fct[0] in ("lt", "le", "eq", "ne"):
+                    if fct[0] in ("eq", "ne") and fct[1][0] == "bin" and fct[2][0] == "bin" and fct[1][1] in ("Lt", "Le") and fct[2][1] in ("Lt", "Le"):
+                        r = bool_tree(fct[1], env) == bool_tree(fct[2], env)
+                        r = r if fct[0] == "eq" else not r
+                    else:
+                        r = atom(fct[0], fct[1], fct[2], env)
+                elif fct[0] in ("true", "false"):
+                    r = bool_tree(fct[1], env)
+                    r = r if fct[0] == "true" else not r
+                else:
+                    raise Unknown(str(fct[0]))
+                if r is False:
+                    ok = False
+                    break
+                if isinstance(r, tuple):
+                    conds.append(r[1])
+            if not ok:
+                continue
+            kind = "edge-walk" if walkd else ("inside" if sm.ret == ("const", True) else ("outside" if sm.ret == ("const", False) else "?"))
+            if kind == "?":
+                raise Unknown("result %s" % show(sm.ret, maxd=3))
+            out[kind].add(frozenset(conds))
+        return out
+    MIRROR = {"<": ">", "<=": ">=", ">": "<", ">=": "<=", "==": "==", "!=": "!="}
+    bad = []
+    try:
+        for s_, t_ in itertools.product((-1, 0, 1), repeat=2):
+            cw = outcome({"s": s_, "t": t_, "a": 1})
+            ccw = outcome({"s": -s_, "t": -t_, "a": -1})
+            mirrored = {k: {frozenset(MIRROR[c] for c in conj) for conj in v} for k, v in ccw.items()}
+            if cw != mirrored:
+                sg = lambda v: "-0+"[v + 1]
+                diff = [k for k in cw if cw[k] != mirrored[k]]
+                bad.append("sign(s, t) = (%s, %s): a clockwise triangle decides %s, the mirrored counter-clockwise case %s" % (
+                    sg(s_), sg(t_), {k: sorted(map(sorted, cw[k])) for k in diff}, {k: sorted(map(sorted, mirrored[k])) for k in diff}))
+    except Unknown as e:
+        rep.fail("R19.3", "contains:winding", "the inside test uses an atom outside the sign domain: %s" % e, status="undecided", at=co.span, fn=co.path)
+        return
+    rep.check(not bad, "R19.3", "contains:winding", "Triangle::contains must decide a point the same way for both vertex orders (invariance under (s, t, area) -> (-s, -t, -area)): %s" % "; ".join(bad[:2]),
+              at=co.span, fn=co.path, detail=bad)
